@@ -1,5 +1,6 @@
 import XfemmVerif.Model.Edit
 import XfemmVerif.Generated.Edit
+import XfemmVerif.Lemmas.EditGeomLemmas
 import Mathlib.Tactic.Linarith
 /-!
 # C16 — geometry edits keep the drawing a proper planar line graph (deletion and renumbering)
@@ -180,5 +181,43 @@ theorem delete_nodes_keeps_drawing_wellformed (s : State P Q) (h : WF s) :
   have hv : Generated.Edit.attachedMarkToggles = false := by decide
   rw [hv]
   exact deleteSelectedNodes_wf s h
+
+
+/-! ### "Copies land at exactly the transformed coordinates" - the point maps of the copy / move commands (`Model/EditGeom.lean`)
+
+The model applies the `CComplex` operators in the order of `mirrorCopy`, `rotateCopy`, `translateCopy`; its `Float` instance is compared
+bit for bit with the end points of copied arcs in drawings saved by the real femmcli (arc-copy family of `checks/C16.py`).  Over any
+ordered field: -/
+section copies
+open XfemmVerif XfemmVerif.EditGeom XfemmVerif.EditGeomLemmas
+variable {K : Type} [Field K] [LinearOrder K] [IsStrictOrderedRing K] [AbsGt K] [LawfulAbsGt K]
+
+/-- A reflection about a line with unit direction `p` reverses the orientation of every triple of points: the signed area changes sign.
+    So the centre of the counter-clockwise arc P0 -> P1, which lies to the left of the chord, is mapped to the RIGHT of M(P0) -> M(P1) and to
+    the left of M(P1) -> M(P0): the mirror copy of an arc has to swap its end points (the defect repaired in cacda5d kept their order). -/
+theorem mirror_copy_reverses_orientation (x p a b c : Cx K) (hp : p.re * p.re + p.im * p.im = 1) :
+    cross (mirror x p b - mirror x p a) (mirror x p c - mirror x p a) = - cross (b - a) (c - a) :=
+  mirror_reverses_orientation x p a b c hp
+
+/-- ... and is an isometry -/
+theorem mirror_copy_keeps_distances (x p a b : Cx K) (hp : p.re * p.re + p.im * p.im = 1) :
+    absq (mirror x p b - mirror x p a) = absq (b - a) := mirror_keeps_distance x p a b hp
+
+/-- a rotation copy (z = exp(i t) has modulus one) keeps orientation - the copy of an arc keeps the order of its end points - -/
+theorem rotate_copy_keeps_orientation (c z a b d : Cx K) (hz : z.re * z.re + z.im * z.im = 1) :
+    cross (rotate c z b - rotate c z a) (rotate c z d - rotate c z a) = cross (b - a) (d - a) :=
+  rotate_keeps_orientation c z a b d hz
+
+/-- ... and distances -/
+theorem rotate_copy_keeps_distances (c z a b : Cx K) (hz : z.re * z.re + z.im * z.im = 1) :
+    absq (rotate c z b - rotate c z a) = absq (b - a) := rotate_keeps_distance c z a b hz
+
+/-- a translation copy keeps every difference of positions, hence orientation, distances and angles -/
+theorem translate_copy_keeps_differences (d a b : Cx K) : translate d b - translate d a = b - a :=
+  translate_keeps_differences d a b
+
+/-- non-vacuity: the direction (3/5, 4/5) is a unit vector over the rationals -/
+example : ((3 : ℚ) / 5) * (3 / 5) + (4 / 5) * (4 / 5) = 1 := by norm_num
+end copies
 
 end XfemmVerif.C16
